@@ -8,10 +8,11 @@ import StoneVerif.Lemmas.RtRoundTrip.Decode
 import StoneVerif.Lemmas.RtRoundTrip.DecodeMain
 import StoneVerif.Lemmas.RtRoundTrip.Eq
 import StoneVerif.Lemmas.RtRoundTrip.Stable
+import StoneVerif.Lemmas.RtRoundTrip.Canon
 /-!
 C04 helper lemmas (round trip `decode ∘ wire`), split over `Lemmas/RtRoundTrip/*.lean`:
 `Basic` (strings, Except, env lookups), `Tables` (class tables under `envWF`), `Induct` (the `Good` bundle
 and the induction principle over good values), `Slots` (slot lists), `Valid` (`ExtLaws`; the canonical form
 passes `validate`), `Fields` (`decode_struct_fields`), `Decode`/`DecodeMain` (`decode (wire v) = canon v`),
-`Eq` (`v == canon v`), `Stable` (`wire (canon v) = wire v`, the entry point).
+`Eq` (`v == canon v`), `Stable` (`wire (canon v) = wire v`, the entry point), `Canon` (`canon v` is valid and normal).
 -/
